@@ -161,12 +161,6 @@ theorem C11_decisions (D t : Nat) (ht : 1 ≤ t) :
         omega
       omega
 
-/-- the trailing-zeros flag only matters where `needs_trailing_zeros` says so -/
-theorem roundPair_tz_guard : ∀ (m : Mode) (neg : Bool) (l low : Fin 10) (x : Bool),
-    roundPair m neg l low (needsTrailingZeros m low && x) = roundPair m neg l low x := by
-  intro m neg l low x
-  cases m <;> cases neg <;> cases x <;> revert l low <;> decide
-
 /-- **the inline rounding of the code is the declarative rounding of the true root.**  With the root
     `r` cut at `10^t`, the digit pair handed to `round_pair` and its trailing-zeros flag ("the rest of
     the tail is zero and the root was exact") give exactly `roundUpM` on the virtual tail
